@@ -69,3 +69,176 @@ contract(
     ghost={"frame_props": ["C14"]},
     assumes=["PS7", "X2", "X10"],
 )
+
+# ---------------------------------------------------------------------------------------------- DictAdapter.assign
+
+from pyvc.core import fresh_value, pack, unpack, RaiseSig
+from pyvc.specs import abstract_assign, val_term
+from pyvc.types import INT, ListT, parse_ty
+
+DA = "inline_snapshot._adapter.dict_adapter"
+DICTV = Abs("DictV")
+VAL = Abs("Val")
+
+
+def _keys(I, d):
+    f = z3.Function("DictV_keys", sort_of(DICTV), sort_of(parse_ty("List[Val]")))
+    l = unpack(I.ctx, f(d.t), parse_ty("List[Val]"))
+    # dict keys are pairwise different (PS5)
+    i, j = z3.Int(I.ctx.fresh_name("ki")), z3.Int(I.ctx.fresh_name("kj"))
+    I.ctx.define("distinct-keys-" + str(d.t), lambda: z3.ForAll([i, j], z3.Implies(z3.And(0 <= i, i < j, j < l.nz()), z3.Select(l.arr, i) != z3.Select(l.arr, j)),
+                                                                      patterns=[z3.MultiPattern(z3.Select(l.arr, i), z3.Select(l.arr, j))]))
+    return l
+
+
+def _dget(d_t, k_t):
+    return z3.Function("DictV_get", sort_of(DICTV), sort_of(VAL), sort_of(VAL))(d_t, k_t)
+
+
+def dict_contains(I, d, item):
+    l = _keys(I, d)
+    j = z3.Int(I.ctx.fresh_name("cj"))
+    return SV(z3.Exists([j], z3.And(0 <= j, j < l.nz(), z3.Select(l.arr, j) == val_term(I, item))), BOOL)
+
+
+def dict_index(I, d, key, node):
+    ok = dict_contains(I, d, key)
+    I.implicit("KeyError", ok.t, "key-present", node)
+    return SV(_dget(d.t, val_term(I, key)), VAL)
+
+
+def dict_len(I, d):
+    l = _keys(I, d)
+    return l.n if isinstance(l.n, int) else SV(l.n, INT)
+
+
+def dict_keys(I, args, kwargs, node):
+    return _keys(I, args[0])
+
+
+def dict_items(I, args, kwargs, node):
+    d = args[0]
+    l = _keys(I, d)
+    pair = parse_ty("Tuple[Val,Val]")
+    items = fresh_value(I.ctx, ListT(pair), "items")
+    mk = sort_of(pair).constructor(0)
+    i = z3.Int(I.ctx.fresh_name("ii"))
+    I.ctx.assume(items.nz() == l.nz())
+    I.ctx.assume(z3.ForAll([i], z3.Implies(z3.And(0 <= i, i < l.nz()), z3.Select(items.arr, i) == mk(z3.Select(l.arr, i), _dget(d.t, z3.Select(l.arr, i)))),
+                           patterns=[z3.Select(items.arr, i)]), tag="items")
+    return items
+
+
+SPEC_NS.setdefault("abs_ops", {})["DictV"] = {"contains": dict_contains, "index": dict_index, "len": dict_len}
+from pyvc.defaults import DEFAULT_POLICIES
+
+DEFAULT_POLICIES["attrs"].update({"DictV.keys": dict_keys, "DictV.items": dict_items, "Node.keys": "List[Node]", "Node.values": "List[Node]", "Node.elts": "List[Node]"})
+
+
+def s_dkeys(I, d):
+    return _keys(I, d)
+
+
+def s_dget(I, d, k):
+    return SV(_dget(d.t, val_term(I, k)), VAL)
+
+
+def s_dhas(I, d, k):
+    return dict_contains(I, d, k)
+
+
+def s_assoc(I, r):
+    return r.assoc
+
+
+SPEC_NS.update({"dkeys": s_dkeys, "dget": s_dget, "dhas": s_dhas, "assoc": s_assoc})
+
+
+def p_literal_eval(I, args, kwargs, node):
+    if not I.ctx.choose():
+        raise RaiseSig("ValueError", info=["ast.literal_eval of a non-literal"])
+    return Opaque("literal")
+
+
+def dict_child_assign(I, args, kwargs, node):
+    """Child call `adapter.assign(old_value[key], node, new_value[key])` inside DictAdapter.assign.
+    Obligation (C11/C10/C03): the node handed to the child is the value node of *that key* in the old display.
+    Then the child's generic contract is assumed (induction over the structure of the value):
+    P-val under E1 -- the child's result equals the new element."""
+    o, nd, n = args[-3], args[-2], args[-1]
+    fr = I.frames[-1]
+    env = I.param_env
+    old_value, old_node = env.lookup("old_value"), env.lookup("old_node")
+    ks = _keys(I, old_value)
+    if isinstance(nd, SV) and nd.ty == Abs("Node"):
+        nt = nd.t
+    elif nd is None:
+        nt = I.V.none_const(Abs("Node"))
+    else:
+        nt = z3.Const(I.ctx.fresh_name("unknown_node"), sort_of(Abs("Node")))
+    vals = I.getattr(old_node, "values")
+    isd = z3.Function("isinst_Dict", sort_of(Abs("Node")), z3.BoolSort())(old_node.t)
+    q = z3.Int(I.ctx.fresh_name("q"))
+    good = z3.If(z3.And(old_node.t != I.V.none_const(Abs("Node")), isd),
+                 z3.Exists([q], z3.And(0 <= q, q < ks.nz(), val_term(I, o) == _dget(old_value.t, z3.Select(ks.arr, q)), nt == z3.Select(vals.arr, q))),
+                 nt == I.V.none_const(Abs("Node")))
+    I.oblige("call-pre", f"child-gets-the-node-of-its-own-key@{getattr(node, 'lineno', '?')} [C11,C10,C03,C02]", good)
+    g = abstract_assign(I, args, kwargs, node)
+    eqf = z3.Function("eq_Val", sort_of(VAL), sort_of(VAL), sort_of(VAL))
+    tr = z3.Function("truthy_Val", sort_of(VAL), z3.BoolSort())
+    I.ctx.assume(tr(eqf(g.fields["value"].t, val_term(I, n))), tag="IH-child-P-val")
+    return g
+
+
+def _va_policy(I, args, kwargs, node):
+    from pyvc.types import Obj as _O
+
+    return _O("inline_snapshot._adapter.adapter.Adapter", {"context": None})
+
+
+NEWKEYS = "dkeys(new_value)"
+
+contract(
+    DA + ".DictAdapter.assign",
+    params={"self": "@DAdapter", "old_value": "DictV", "old_node": "Node", "new_value": "DictV"},
+    shapes={"DAdapter": Shape(DA + ".DictAdapter", {"context": "@Context"})},
+    callees={"Adapter.get_adapter": _va_policy, "Adapter.assign": dict_child_assign, "ast.literal_eval": p_literal_eval, "warnings.warn_explicit": "havoc",
+             "Adapter.value_assign": "inline", "ValueAdapter": "inline"},
+    returns=None,
+    result_name="ret",
+    uses=["val", "E1"],
+    requires={
+        # established by DictAdapter.items / UndecidedValue: the value was obtained by evaluating the node
+        "denotes": "implies(old_node is not None and isinstance_node(old_node, 'Dict'), len(old_node.values) == len(old_node.keys))",
+    },
+    loops={
+        0: Loop(index="k0", inv={"no-star-so-far": "all(old_node.keys[j] is not None for j in range(0, k0))", "nothing-yet": "len(trace) == 0"}),
+        1: Loop(index="k1", inv={"nothing-yet": "len(trace) == 0"}),
+        2: Loop(index="k2", inv={
+            "deletes-only-dropped-keys": "all(trace[j].kind == 'Delete' and trace[j].flag == 'fix' for j in range(0, len(trace)))",
+        }),
+        3: Loop(index="k3", inv={
+            "result-keys": "len(assoc(result)) == k3 and all(assoc(result)[i][0] == dkeys(new_value)[i] for i in range(0, k3))",
+            "result-values": "all(T(eq(assoc(result)[i][1], dget(new_value, dkeys(new_value)[i]))) for i in range(0, k3))",
+            "insert-pos": "0 <= insert_pos and insert_pos <= k3",
+            "pending-inserts-are-new-keys": "all(not dhas(old_value, to_insert[i][0]) for i in range(0, len(to_insert)))",
+        }),
+    },
+    ensures={
+        # C02: the recorded dict has exactly the new keys, in the new order, with values equal to the new values
+        "result-has-the-new-keys-in-order [C02]": "ifdef(['k3'], len(assoc(ret)) == len(dkeys(new_value)) and all(assoc(ret)[i][0] == dkeys(new_value)[i] for i in range(0, len(dkeys(new_value)))))",
+        "result-values-equal-the-new-values [C02]": "ifdef(['k3'], all(T(eq(assoc(ret)[i][1], dget(new_value, dkeys(new_value)[i]))) for i in range(0, len(dkeys(new_value)))))",
+    },
+    raises={"AssertionError": {"only-the-key-order-sanity-check [C18]": "True"}},
+    ghost={"props": ["C11", "C10", "C03"], "assoc_dict_ty": "Tuple[Val,Val]", "none_list_ty": "Node", "locals": {"to_insert": "List[Tuple[Val,Val]]"},
+           "untracked": ["new_code", "node_value"], "light_feasibility": True},
+    safety_props=["C18"],
+    assumes=["PS5", "E1", "X3"],
+)
+
+
+def s_isinstance_node(I, n, name):
+    return SV(z3.Function("isinst_" + name, sort_of(Abs("Node")), z3.BoolSort())(n.t), BOOL)
+
+
+SPEC_NS["isinstance_node"] = s_isinstance_node
